@@ -260,6 +260,33 @@ def replay_and_validate(ctx, scheds, invariants, tag, sig_fn=None):
     return accepted_total, bad, runs
 
 
+def confirm_rejections(ctx, scheds, bad, invariants, tag="confirm"):
+    """The stepped driver is deterministic up to the kernel (when a loopback connection becomes visible to the listener
+    under load).  A rejected run is executed again, alone, twice; it is reported only if the same predicate fails again in
+    BOTH re-executions - a defect of the code under test reproduces, a hiccup of the environment does not.  What was not
+    reproduced is recorded in the evidence."""
+    out, seen = [], set()
+    for (i, rec, pred) in bad:
+        if (i, pred) in seen:
+            continue
+        seen.add((i, pred))
+        again = 0
+        for k in range(2):
+            _acc, bad2, _runs = replay_and_validate(ctx, [scheds[i]], invariants, "%s-%s-%d-%d" % (ctx.prop.lower(), tag, i, k))
+            if any(p2 == pred for (_i, _r, p2) in bad2):
+                again += 1
+        if again == 2:
+            out.append((i, rec, pred))
+        else:
+            vlib.log("rejection of predicate %s on schedule %d (%s) reproduced in %d of 2 re-executions: not reported; first record: %s" % (
+                pred, i, scheds[i].get("origin"), again, json.dumps(rec, separators=(",", ":"))[:6000]))
+            ctx.cov.setdefault("unreproduced_rejections", []).append(
+                {"predicate": pred, "origin": scheds[i].get("origin"), "reproduced": again, "record": rec.get("k")})
+        if len(out) >= 6:
+            break
+    return out
+
+
 def cex_schedule(ctx, cfg, consts=None):
     """Runs a NEG config, exports TLC's counterexample (-dumpTrace json) and translates it into a driver
     schedule: the design-level counterexample of a wrong variant becomes a regression schedule for the code."""
@@ -393,6 +420,7 @@ def run_check(ctx, *, design, edge_cfgs, negs, invariants, corpus, max_paths_qui
                 sch["probed"] = True
     accepted, bad, runs = replay_and_validate(ctx, scheds, invariants, ctx.prop.lower())
     ctx.cov["traces_validated_against_impl"] += accepted
+    bad = confirm_rejections(ctx, scheds, bad, invariants)
     for (i, rec, pred) in bad:
         sig = (signature(rec, pred, scheds[i]) if signature else "%s:%s" % (pred, rec.get("do")))
         ctx.violation(sig, "predicate %s is false on the state observed after step %s (%s) of a schedule from %s" % (
